@@ -19,7 +19,13 @@ RULE = ("[histories: 30% of the resolve-stage cases resolve once or twice MORE w
         "random; prefix lengths from {0,1,31,32 (127,128), the table entry's length -1/+0/+1, random}; spellings: /len (with leading "
         "zeros), /netmask, /hostmask, no mask, host bits set, JSON integer; IPv6 full / zero-suppressed / '::' at any zero run / "
         "mixed case / embedded dotted quad; ~25% invalid spellings (leading zeros, 3 or 5 octets, 256, /33, /129, non-contiguous "
-        "masks, two '::', 9 groups, 5 hex digits, stray characters, one-character mutations of valid texts). Every run also sweeps "
+        "masks, two '::', 9 groups, 5 hex digits, stray characters, one-character mutations of valid texts). str(IPv6Network) "
+        "(print6, RFC 5952 compression) is compared with the running Python's ipaddress on EVERY pattern of zero / non-zero hextets "
+        "(all 256, three fillings of the non-zero ones, as /128 and masked at every hextet boundary) and on addresses built from runs: "
+        "all zeros, all ones, one zero hextet at each position, two runs of equal length, runs at both ends, a longer run after a "
+        "shorter one and the converse, hextets of every digit count (1, f, 10, ff, 100, fff, 1000, ffff), IPv4-looking low 32 bits "
+        "(::a.b.c.d, ::ffff:a.b.c.d, 64:ff9b::a.b.c.d), random; every IPv6 field / leaf surface compares the implementation's text "
+        "with print6 AND parses it back. Every run also sweeps "
         "every edge address of every table entry x all 33 prefix lengths (is_public) and all 33 / 129 prefix lengths in every "
         "spelling (slash zero). non-trivial = the "
         "text is not already the canonical str() of the network, or it is invalid, or the surface is a predicate; distinct by hash "
@@ -29,15 +35,16 @@ ASSUMPTIONS = [
     "prefix-length texts longer than 4300 digits (CPython's int() conversion limit) are not generated",
     "JSON booleans in a CIDR field (Python treats True as the integer 1) are outside the model (EUndefined)",
     "is_public()/ipvN_slash_zero() are observed on fields that hold a network or None (after resolve for Ref), not on unresolved Ref objects",
-    "RFC 5952 compression performed by str(IPv6Network) is not modelled: the implementation's text is parsed back by the model's parse6 "
-    "and must denote the model's network",
+    "str(IPv6Network) is modelled after CPython 3.12's _compress_hextets / _string_from_ip_int (Net/IPv6Print.v: no dotted-quad tail for "
+    "IPv4-mapped addresses, which CPython 3.13 prints); the model's text is compared with the running Python's on every run, so a "
+    "Python that prints differently is reported, not assumed",
 ]
 MODELLED = ("hand-written Gallina models, tied by differential execution: parse4/print4 (IPv4 text <-> network incl. netmask and hostmask "
-            "forms), parse6/print6_full (IPv6 text -> network, uncompressed printing), mk_net masking, slash_zero, is_public over the "
+            "forms), parse6/print6_full/print6 (IPv6 text -> network, uncompressed printing, RFC 5952 compressed printing = str()), mk_net masking, slash_zero, is_public over the "
             "private-network table. The table itself (14 networks + 100.64.0.0/10) and the two '/0' constants are GENERATED from the "
             "running ipaddress module / pycfmodel.constants (gen/PrivateNets.v) after comparing the AST of IPv4Network.is_global, "
-            "_BaseNetwork.is_private and _BaseNetwork.__contains__ with the code the model follows. Leaf oracle: none for IPv4; for IPv6 "
-            "only the compressed str() text (checked by parsing it back). The bitwise masking `int(addr) & int(netmask)` of ipaddress is "
+            "_BaseNetwork.is_private and _BaseNetwork.__contains__ with the code the model follows. Leaf oracle: none (str(IPv6Network) is modelled "
+            "by print6, proved to parse back to the network for all 2^128*129 networks, and compared with ipaddress's text). The bitwise masking `int(addr) & int(netmask)` of ipaddress is "
             "modelled arithmetically ((x / 2^(W-l)) * 2^(W-l)); C17_masking_is_bitwise proves the two equal, the rest of ipaddress's "
             "text handling is tied by correspondence.")
 
@@ -198,7 +205,7 @@ class Field4(core.Surface):
 
 class Field6(core.Surface):
     name = "CidrIpv6 field value"
-    theorem = "C17_masked6 / C17_denotes6 / C17_via_ref6 (text tied by parse6(impl text) = model network)"
+    theorem = "C17_masked6 / C17_denotes6 / C17_via_ref6 / C17_print6_roundtrip (impl text = print6 of the model network, and parses back to it)"
     frozen = frozenset({"kind", "via", "stage", "t"})
     rn = None
 
@@ -216,7 +223,7 @@ class Field6(core.Surface):
         m = core.model_res(rn.call(staged_op(x, 1702), [x.get("cidr6")]))
         if o is not None or m[0] != "OK":
             return o if o is not None else m
-        return ("OK", None if m[1] is None else m[1][:2])
+        return ("OK", None if m[1] is None else [m[1][0], m[1][1], m[1][3]])    # address, length, str()
 
     def agree(self, x, i, m):
         if i[0] != m[0]:
@@ -225,8 +232,10 @@ class Field6(core.Surface):
             return i[1] == m[1]
         if i[1] is None or m[1] is None:
             return i[1] is None and m[1] is None
+        if i[1] != m[1][2]:                     # the text itself: str(IPv6Network) = print6
+            return False
         back = core.model_res(self.rn.call(1702, [i[1]], sample=False))
-        return back[0] == "OK" and back[1] is not None and back[1][:2] == m[1]
+        return back[0] == "OK" and back[1] is not None and back[1][:2] == m[1][:2]
 
     def tags(self, x):
         return text_tags(x) | {"v6"}
@@ -317,7 +326,7 @@ class Leaf4(core.Surface):
 
 class Leaf6(core.Surface):
     name = "pycfmodel.model.types.LooseIPv6Network(text)"
-    theorem = "C17_denotes6 (model parse6 = the validator of every IPv6 CIDR field; print6_full = .exploded)"
+    theorem = "C17_denotes6 / C17_print6_roundtrip (model parse6 = the validator of every IPv6 CIDR field; print6_full = .exploded; print6 = str())"
 
     def impl(self, x):
         def go():
@@ -326,7 +335,7 @@ class Leaf6(core.Surface):
                 n = LooseIPv6Network(x["text"])
             except ValueError as e:
                 raise ValueError(str(e)) from None
-            return [int(n.network_address), n.prefixlen, n.exploded]
+            return [int(n.network_address), n.prefixlen, n.exploded, str(n)]
         return core.impl_call(go)
 
     def model(self, rn, x):
@@ -340,8 +349,53 @@ class Leaf6(core.Surface):
         return i[0] == "EXC" or i[1][2] != x["text"]
 
 
-F4, F6, SZ, PUB, L4, L6 = Field4(), Field6(), SlashZero(), Public(), Leaf4(), Leaf6()
-SURFACES = {s.name: s for s in (F4, F6, SZ, PUB, L4, L6)}
+def wire_safe(v):
+    return json.loads(json.dumps(v, default=str))
+
+
+class Print6(core.Surface):
+    name = "str(ipaddress.IPv6Network((address, prefixlen))) / str(IPv6Address(address))"
+    theorem = "C17_print6_roundtrip / C17_print6_shape (model print6 = the text Python prints; the text parses back to the network)"
+
+    @staticmethod
+    def addr(x):
+        try:
+            a = int(x["a"], 16)
+        except (TypeError, ValueError):
+            return None
+        return a if 0 <= a < (1 << 128) else None
+
+    def impl(self, x):
+        def go():
+            a = self.addr(x)
+            if x.get("l") is None:
+                return str(ipaddress.IPv6Address(a))
+            return str(ipaddress.IPv6Network((a, x["l"])))
+        return core.impl_call(go)
+
+    def model(self, rn, x):
+        a = self.addr(x)
+        if a is None or not (x.get("l") is None or isinstance(x["l"], int)):
+            return ("EXC", "EUndefined", "")
+        if x.get("l") is None:
+            return core.model_res(rn.call(1709, [a]))
+        m = core.model_res(rn.call(1708, [a, x["l"]]))     # EUndefined unless (a, l) is a network (host bits clear, l <= 128)
+        if m[0] == "OK":
+            # the clause the theorem states, observed too: the printed text parses back to this very network
+            back = core.model_res(rn.call(1702, [m[1]], sample=False))
+            if back[0] != "OK" or back[1] is None or back[1][:2] != [a, x["l"]] or back[1][3] != m[1]:
+                return ("OK", {"print6": m[1], "does_not_parse_back_to": [a, x["l"]], "but_to": wire_safe(back)})
+        return m
+
+    def tags(self, x):
+        return set(x.get("t", [])) | {"v6", "print"}
+
+    def nontrivial(self, x, i, m):
+        return True
+
+
+F4, F6, SZ, PUB, L4, L6, P6 = Field4(), Field6(), SlashZero(), Public(), Leaf4(), Leaf6(), Print6()
+SURFACES = {s.name: s for s in (F4, F6, SZ, PUB, L4, L6, P6)}
 
 
 # ---------------------------------------------------------------------------------------------
@@ -535,6 +589,108 @@ def gen_text6(rng):
     return spell6(rng, a, l)
 
 
+HEXTET_EDGES = [1, 0xf, 0x10, 0xff, 0x100, 0xfff, 0x1000, 0xffff, 0x8000, 0xa, 0xabcd, 0x0db8, 0x2001]
+
+
+def pack6(g):
+    a = 0
+    for v in g:
+        a = (a << 16) | v
+    return a
+
+
+def print_case(g, l, tags):
+    """The address is carried as hex text (128-bit integers do not survive every JSON reader); l None = address only."""
+    a = pack6(g)
+    if l is not None and l < 128:
+        a &= ~((1 << (128 - l)) - 1)
+    return {"a": "%x" % a, "l": l, "t": sorted(set(tags))}
+
+
+def nz(rng):
+    return rng.choice(HEXTET_EDGES) if rng.random() < 0.7 else rng.randrange(1, 1 << 16)
+
+
+def gen_print6(rng):
+    """Hextet lists biased to what the compression looks at: where the runs of zero hextets are and how long."""
+    r = rng.random()
+    tags = []
+    if r < 0.04:
+        g, tags = rng.choice([[0] * 8, [0xffff] * 8, [0] * 7 + [1], [1] + [0] * 7, [0] * 7 + [0xffff]]), ["extreme"]
+    elif r < 0.12:                     # exactly one zero hextet (never shortened), or exactly one non-zero hextet
+        g = [nz(rng) for _ in range(8)]
+        i = rng.randrange(8)
+        if rng.random() < 0.6:
+            g[i], tags = 0, ["single-zero"]
+        else:
+            g, tags = [0] * 8, ["single-nonzero"]
+            g[i] = nz(rng)
+    elif r < 0.27:                     # two runs of EQUAL length (the left one goes)
+        k = rng.choice([1, 2, 2, 3])
+        gap = rng.randrange(1, 8 - 2 * k + 1)
+        lead = rng.randrange(0, 8 - 2 * k - gap + 1)
+        g = [nz(rng) for _ in range(8)]
+        for j in range(k):
+            g[lead + j] = 0
+            g[lead + k + gap + j] = 0
+        tags = ["equal-runs"]
+    elif r < 0.42:                     # a longer run after a shorter one, or the converse
+        k1 = rng.choice([1, 2, 3])
+        k2 = rng.randrange(k1 + 1, 7 - k1 + 1)
+        if rng.random() < 0.5:
+            k1, k2 = k2, k1
+        gap = rng.randrange(1, 8 - k1 - k2 + 1)
+        lead = rng.randrange(0, 8 - k1 - k2 - gap + 1)
+        g = [nz(rng) for _ in range(8)]
+        for j in range(k1):
+            g[lead + j] = 0
+        for j in range(k2):
+            g[lead + k1 + gap + j] = 0
+        tags = ["unequal-runs"]
+    elif r < 0.52:                     # runs at both ends
+        k1, k2 = rng.randrange(1, 4), rng.randrange(1, 4)
+        g = [0] * k1 + [nz(rng) for _ in range(8 - k1 - k2)] + [0] * k2
+        if rng.random() < 0.3 and 8 - k1 - k2 >= 3:
+            g[k1 + 1] = 0
+        tags = ["both-ends"]
+    elif r < 0.64:                     # IPv4-looking low 32 bits
+        v4 = rng.choice([0x01020304, 0x7f000001, 0x0a000001, 0xc0a80101, 0xffffffff, 0x00000001, 0x00010000, 0x01000000,
+                         rng.randrange(1 << 32)])
+        head = rng.choice([[0] * 6, [0] * 5 + [0xffff], [0x64, 0xff9b, 0, 0, 0, 0], [0x2002, nz(rng), nz(rng), 0, 0, 0],
+                           [0xfe80, 0, 0, 0, 0x0200, 0x5efe]])
+        g = list(head) + [v4 >> 16, v4 & 0xffff]
+        tags = ["v4-tail"]
+    elif r < 0.9:                      # any pattern of zero / non-zero hextets
+        pat = rng.randrange(256)
+        g = [0 if (pat >> (7 - i)) & 1 == 0 else nz(rng) for i in range(8)]
+        tags = ["pattern"]
+    else:
+        a = rng.randrange(1 << 128)
+        g = [(a >> (16 * (7 - i))) & 0xffff for i in range(8)]
+        tags = ["random"]
+    q = rng.random()
+    if q < 0.15:
+        return print_case(g, None, tags + ["address"])
+    if q < 0.7:
+        return print_case(g, 128, tags)
+    return print_case(g, rng.choice([0, 1, 15, 16, 17, 32, 48, 63, 64, 65, 96, 112, 113, 127, rng.randrange(129)]), tags + ["masked"])
+
+
+def sweep_print6():
+    """Every pattern of zero / non-zero hextets, with three fillings of the non-zero ones, as an address, as a /128 and masked at
+    every hextet boundary."""
+    fills = ([1] * 8, [0xffff, 0x100, 0x10, 0xf, 0x1000, 0xfff, 0xff, 0xabcd], [0x2001, 0xdb8, 0x85a3, 0x8a2e, 0x370, 0x7334, 0xa0b, 0xc0d0])
+    for pat in range(256):
+        for fi, fill in enumerate(fills):
+            g = [0 if (pat >> (7 - i)) & 1 == 0 else fill[i] for i in range(8)]
+            yield P6, print_case(g, 128, ["sweep", "pattern"])
+            if fi == 0:
+                yield P6, print_case(g, None, ["sweep", "pattern", "address"])
+            if fi == 1:
+                for l in range(0, 128, 16):
+                    yield P6, print_case(g, l, ["sweep", "pattern", "masked"])
+
+
 def gen_group(rng):
     return rng.choice([None, None, "", "sg-name", "default"]), rng.choice([None, None, "", "sg-0123"])
 
@@ -628,6 +784,9 @@ def cases(rng, tier, shard, nshards):
     for k, c in enumerate(sweep()):
         if k % nshards == shard:
             yield c
+    for k, c in enumerate(sweep_print6()):
+        if k % nshards == shard:
+            yield c
     n = {"quick": 3000, "thorough": 12000}[tier]
     for k in range(n):
         x = gen_rule_case(rng)
@@ -648,6 +807,8 @@ def cases(rng, tier, shard, nshards):
                 yield L4, {"text": t, "t": sorted(set(tg))}
             t, tg = gen_text6(rng)
             yield L6, {"text": t, "t": sorted(set(tg))}
+        for _ in range(2):
+            yield P6, gen_print6(rng)
 
 
 def extra_checks(tier, seed, stats, broken):
